@@ -18,11 +18,49 @@ class Boom(Exception):
         self.tag = tag
 
 
+class BoomValue(ValueError):
+    def __init__(self, tag):
+        super().__init__(tag)
+        self.tag = tag
+
+
+class BoomAssert(AssertionError):
+    def __init__(self, tag):
+        super().__init__(tag)
+        self.tag = tag
+
+
+class BoomEOF(EOFError):
+    def __init__(self, tag):
+        super().__init__(tag)
+        self.tag = tag
+
+
+class BoomType(TypeError):
+    def __init__(self, tag):
+        super().__init__(tag)
+        self.tag = tag
+
+
+class BoomPipe(BrokenPipeError):
+    def __init__(self, tag):
+        BrokenPipeError.__init__(self, tag)
+        self.tag = tag
+
+    def __reduce__(self):
+        return (BoomPipe, (self.tag,))
+
+
+BOOMS = {"Exception": Boom, "ValueError": BoomValue, "AssertionError": BoomAssert, "EOFError": BoomEOF, "TypeError": BoomType,
+         "BrokenPipeError": BoomPipe}
+
+
 class HFilter:
     """Harness filter.  Per item: record (simulated pid, item), then produce the item's
     outputs (uniquely tagged), yielding to the scheduler between them; or raise."""
 
-    def __init__(self, outs, plain, fail, fail_after, log_lines, falsy=()):
+    def __init__(self, outs, plain, fail, fail_after, log_lines, falsy=(), exc="Exception"):
+        self.exc = exc
         self.falsy = set(falsy)       # items whose outputs are falsy values (0, "", (), False, 0.0)
         self.outs = outs              # item -> number of outputs
         self.plain = plain            # items answered with a plain value instead of an iterator
@@ -51,7 +89,7 @@ class HFilter:
             yield out_value(item, j, item in self.falsy)
         if item in self.fail:
             s.count("fault.filter_raise")
-            raise Boom(item)
+            raise BOOMS[self.exc](item)
 
 
 FALSY = (0, "", (), False, 0.0)
@@ -108,7 +146,7 @@ class C08:
     level = "exploration"
     design_ref = "DESIGN.md 3.7"
     tiers = {"quick": {"runs": 16000, "budget_s": 80, "chunk": 80, "twice_every": 25, "shrink_s": 40},
-             "thorough": {"runs": 400000, "budget_s": 840, "chunk": 100, "twice_every": 50, "shrink_s": 120}}
+             "thorough": {"runs": 600000, "budget_s": 840, "chunk": 100, "twice_every": 50, "shrink_s": 120}}
     rule = ("one run = one (workload, configuration, fault plan, schedule) drawn from splitmix64(VERIF_SEED, index): "
             "n items 0-14, n_processes 1-5, maxtasksperchild 0-4, read_wait, Multiprocessor or CobaMultiprocessor, "
             "per-item output counts 0-3 / plain values, failing item subset, consumer reads all or abandons after k; "
@@ -168,6 +206,8 @@ class C08:
             "n_items": n_items, "n_procs": n_procs, "mtpc": mtpc, "read_wait": rng.random() < 0.3 and not coba_mp,
             "coba_mp": coba_mp, "outs": outs, "plain": plain, "falsy": falsy, "fail": fail, "fail_after": fail_after,
             "consumer": consumer, "items_as": weighted(rng, [("list", 3), ("iter", 1)]),
+            # the type of the error the user's filter raises (an assert in user code is an AssertionError ...)
+            "exc": weighted(rng, [("Exception", 4), ("ValueError", 2), ("AssertionError", 2), ("EOFError", 1), ("TypeError", 1), ("BrokenPipeError", 1)]),
             "knobs": {"feeder_delay": rng.random() < 0.5, "pipe_cap": weighted(rng, [(None, 4), (1, 1), (3, 1)]),
                       "p_stay": weighted(rng, [(0.0, 2), (0.5, 2), (0.9, 1)]),
                       "slow_main": rng.random() < 0.25, "log_lines": coba_mp and rng.random() < 0.7,
@@ -193,7 +233,7 @@ class C08:
         log_sink = ListSinkH()
         quiet_context(log_sink)
         fail_after = {int(k): v for k, v in cfg["fail_after"].items()}
-        f = HFilter(cfg["outs"], set(cfg["plain"]), set(cfg["fail"]), fail_after, kn["log_lines"], cfg.get("falsy", ()))
+        f = HFilter(cfg["outs"], set(cfg["plain"]), set(cfg["fail"]), fail_after, kn["log_lines"], cfg.get("falsy", ()), cfg.get("exc", "Exception"))
         got, obs = [], {}
 
         def main():
@@ -277,16 +317,16 @@ class C08:
         if cfg["consumer"]["mode"] == "abandon":
             if "close_exc" in obs:
                 return vio("close_raised", f"closing the output early raised {obs['close_exc']!r}")
-            if exc is not None and not (isinstance(exc, Boom) and exc.tag in cfg["fail"]):
+            if exc is not None and not (isinstance(exc, tuple(BOOMS.values())) and exc.tag in cfg["fail"]):
                 return vio("unexpected_exception", f"abandoning raised {exc!r}")
             return None
         if cfg["fail"]:
             if exc is None:
                 # only acceptable if the failing item was really never reached - impossible with full consumption
-                return vio("error_swallowed", f"filter raised for items {cfg['fail']} but the call returned normally "
-                                              f"with {len(got)} outputs")
-            if not (isinstance(exc, Boom) and exc.tag in cfg["fail"]):
-                return vio("wrong_exception", f"expected Boom for one of {cfg['fail']}, got {exc!r}")
+                return vio("error_swallowed", f"filter raised {cfg.get('exc', 'Exception')} for items {cfg['fail']} but the call returned normally "
+                                              f"with {len(got)} outputs", key=f"error_swallowed:{cfg.get('exc', 'Exception')}")
+            if not (isinstance(exc, BOOMS[cfg.get("exc", "Exception")]) and exc.tag in cfg["fail"]):
+                return vio("wrong_exception", f"expected {cfg.get('exc', 'Exception')} for one of {cfg['fail']}, got {exc!r}")
             return None
         if exc is not None:
             return vio("unexpected_exception", f"no failure injected but the call raised {exc!r}")
